@@ -338,6 +338,13 @@ pub fn replay(s: &mut Summary, v: &V) {
                 let (ai, bi) = (d[l[0] as usize]..=d[l[1] as usize], d[r[0] as usize]..=d[r[1] as usize]);
                 s.check(&format!("eq_rangeinc/{}", stringify!($t)), json!($fi(&ai, &bi)), &exp_eq);
                 s.check(&format!("const_eq!/RangeInclusive<{}>", stringify!($t)), json!(const_eq!(ai.clone(), bi.clone())), &exp_eq);
+                // the _for forms of the macro, every comparator form (none, key closure, two-argument closure, path)
+                s.check(&format!("const_eq_for!(range)/{}", stringify!($t)), json!(const_eq_for!(range; a.clone(), b.clone())), &exp_eq);
+                s.check(&format!("const_eq_for!(range,|x|)/{}", stringify!($t)), json!(const_eq_for!(range; a.clone(), b.clone(), |x| *x)), &exp_eq);
+                s.check(&format!("const_eq_for!(range,|a,b|)/{}", stringify!($t)), json!(const_eq_for!(range; a.clone(), b.clone(), |x, y| const_eq!(*x, *y))), &exp_eq);
+                s.check(&format!("const_eq_for!(range_inclusive)/{}", stringify!($t)), json!(const_eq_for!(range_inclusive; ai.clone(), bi.clone())), &exp_eq);
+                s.check(&format!("const_eq_for!(range_inclusive,|x|)/{}", stringify!($t)), json!(const_eq_for!(range_inclusive; ai.clone(), bi.clone(), |x| **x)), &exp_eq);
+                s.check(&format!("const_eq_for!(range_inclusive,|a,b|)/{}", stringify!($t)), json!(const_eq_for!(range_inclusive; ai.clone(), bi.clone(), |x, y| const_eq!(**x, **y))), &exp_eq);
                 s.guard("std::eq/range", json!(a == b), &exp_eq);
             }} }
             rng!(u8, rc::eq_range_u8, rc::eq_rangeinc_u8);
